@@ -72,6 +72,7 @@ def drive_loop(cr, cu, lines, sub, mb, heuristic='MI-numba-randomized'):
     import pandas as pd
     from outrank.core_utils import BatchRankingSummary
     rec = {'batches': [], 'ckpt': [], 'trip': [], 'sel': []}
+    PL.fresh_state()
     cr.GLOBAL_PRIOR_COMB_COUNTS.clear()
     import types
     d = tempfile.mkdtemp(prefix='c08-', dir='/var/tmp')
@@ -178,8 +179,7 @@ def drive_task(lines, sub, mb, heuristic='MI-numba-randomized'):
         f.write(','.join(COLS) + '\n' + ''.join(lines))
     args = PL.cli_args(['--data_path', os.path.join(d, 'in'), '--data_source', 'csv-raw', '--output_folder', os.path.join(d, 'out'), '--heuristic', heuristic,
                         '--subsampling', str(sub), '--minibatch_size', str(mb), '--disable_tqdm', 'True', '--num_threads', '1', '--target_ranking_only', 'False'])
-    for g in (cr.GLOBAL_CARDINALITY_STORAGE, cr.GLOBAL_COUNTS_STORAGE, cr.GLOBAL_RARE_VALUE_STORAGE, cr.GLOBAL_PRIOR_COMB_COUNTS, cr.IGNORED_VALUES):
-        g.clear()
+    PL.fresh_state()
     rec = {'batches': [], 'trip': [], 'cov': []}
     real_cbr = cr.compute_batch_ranking
 
